@@ -15,12 +15,12 @@
 EXTENDS Integers, Sequences, FiniteSets, TLC, Json, IOUtils
 
 VARIABLES l,                               \* next trace line
-          w, cfg, fr, cur, ret, exc, q, done,   \* PegMachine
+          w, cfg, fr, cur, ret, exc, q, done, aux,   \* PegMachine
           skip,                            \* the rest of the current case is not compared
           steps,                           \* machine steps in the current case
           log                              \* [cases, compared, skipped, drift (list, capped)]
 
-vars == <<l, w, cfg, fr, cur, ret, exc, q, done, skip, steps, log>>
+vars == <<l, w, cfg, fr, cur, ret, exc, q, done, aux, skip, steps, log>>
 
 Tr         == ndJsonDeserialize(IOEnv.TRACE)
 TableNodes == JsonDeserialize(IOEnv.TABLE).nodes
@@ -29,36 +29,39 @@ M == INSTANCE PegMachine WITH Nodes <- TableNodes, W <- w, Cfg <- cfg
 
 MachineOps == {"seq", "sor", "star", "star_partial", "plus", "opt", "partial", "at", "not_at", "must", "try_catch_return_false", "raise",
                "if_must", "opt_must", "until", "rep", "rep_opt", "rep_min_max", "if_then_else", "enable", "disable", "action",
-               "try_catch_raise_nested", "apply", "apply0", "if_apply", "strict", "star_strict", "control"}
+               "try_catch_raise_nested", "apply", "apply0", "if_apply", "strict", "star_strict", "control", "state"}
 RECURSIVE Reach(_, _)
 Reach(todo, seen) ==
    IF todo = {} THEN seen
    ELSE LET x == CHOOSE y \in todo : TRUE
             ks == TableNodes[x].ikids
         IN Reach((todo \ {x}) \cup ({ks[i] : i \in DOMAIN ks} \ (seen \cup {x})), seen \cup {x})
-\* the machine models memory inputs, action kinds 0..4 and the operators above
+\* the machine models memory inputs (plain and with the depth counter), the action families 0..7 and the operators above
 Supported(ev) ==
-   /\ ev.cls = 0 /\ ev.xt = 0 /\ ev.af \in 0..3 /\ ev.ib = 0
+   /\ ev.cls \in {0, 1} /\ ev.xt = 0 /\ ev.af \in 0..7 /\ ev.ib = 0
    /\ \A x \in Reach({ev.g}, {}) :
          /\ (TableNodes[x].iop \in MachineOps \/ M!IsAtom(x))
          /\ (TableNodes[x].iop \in {"strict", "star_strict"} => M!RestOf(TableNodes[x].ikids) # {})
          /\ (TableNodes[x].iop = "raise" => TableNodes[x].ip # <<>> /\ TableNodes[x].ip[1] > 0)
          /\ M!AKindOf(x, ev.af) \in 0..7
 
-Init == /\ l = 1 /\ w = <<>> /\ cfg = [g |-> 1, A |-> 1, M |-> 1, af |-> 0, cf |-> 1, eol |-> 3, ib |-> 0, il |-> 1, ic |-> 1]
-        /\ fr = <<>> /\ cur = 0 /\ ret = -1 /\ exc = M!NoExc /\ q = <<>> /\ done = -1
+Init == /\ l = 1 /\ w = <<>> /\ cfg = [g |-> 1, A |-> 1, M |-> 1, af |-> 0, cf |-> 1, eol |-> 3, ib |-> 0, il |-> 1, ic |-> 1, cls |-> 0]
+        /\ fr = <<>> /\ cur = 0 /\ ret = -1 /\ exc = M!NoExc /\ q = <<>> /\ done = -1 /\ aux = [nsid |-> 0, end |-> 0, dep |-> 0]
         /\ skip = TRUE /\ steps = 0
         /\ log = [cases |-> 0, compared |-> 0, skipped |-> 0, limited |-> 0, drift |-> <<>>, ndrift |-> 0]
 
 \* does the emitted event e coincide with the recorded event r in everything the model determines?
 Same(e, r) ==
    /\ e.k = r.k
-   /\ CASE e.k = "en" -> e.r = r.r /\ e.A = r.A /\ e.M = r.M /\ e.o = r.o /\ e.af = r.af
-        [] e.k = "ex" -> e.r = r.r /\ e.v = r.v /\ e.o = r.o
-        [] e.k = "xc" -> e.r = r.r /\ e.x = r.x /\ e.o = r.o
-        [] e.k \in {"st", "su", "fa", "uw", "ra"} -> e.r = r.r /\ e.o = r.o
-        [] e.k = "ap" -> e.r = r.r /\ e.o = r.o /\ e.eo = r.eo /\ e.v = r.v
-        [] e.k = "a0" -> e.r = r.r /\ e.v = r.v
+   /\ CASE e.k = "en" -> e.r = r.r /\ e.A = r.A /\ e.M = r.M /\ e.o = r.o /\ e.af = r.af /\ e.cf = r.cf /\ e.s = r.s /\ e.e = r.e /\ e.d = r.d
+        [] e.k = "ex" -> e.r = r.r /\ e.v = r.v /\ e.o = r.o /\ e.e = r.e /\ e.d = r.d
+        [] e.k = "xc" -> e.r = r.r /\ e.x = r.x /\ e.o = r.o /\ e.e = r.e /\ e.d = r.d
+        [] e.k \in {"st", "su", "fa", "uw", "ra"} -> e.r = r.r /\ e.o = r.o /\ e.cf = r.cf /\ e.e = r.e
+        [] e.k = "ap" -> e.r = r.r /\ e.o = r.o /\ e.eo = r.eo /\ e.v = r.v /\ e.af = r.af /\ e.s = r.s
+        [] e.k = "a0" -> e.r = r.r /\ e.v = r.v /\ e.af = r.af /\ e.s = r.s
+        [] e.k = "sc" -> e.sid = r.sid /\ e.o = r.o /\ e.os = r.os
+        [] e.k = "ss" -> e.sid = r.sid /\ e.o = r.o /\ e.os = r.os
+        [] e.k = "sd" -> e.sid = r.sid
         [] e.k = "ia" -> e.n = r.n /\ e.o = r.o /\ e.eo = r.eo /\ e.v = r.v
         [] e.k = "i0" -> e.n = r.n /\ e.v = r.v
         [] OTHER -> FALSE
@@ -72,34 +75,34 @@ Next ==
       IF ev.k = "case"
       THEN \* a new run: start the machine on the same grammar, input and configuration
            /\ w' = ev.w
-           /\ cfg' = [g |-> ev.g, A |-> ev.A, M |-> ev.M, af |-> ev.af, cf |-> ev.cf, eol |-> ev.eol, ib |-> ev.ib, il |-> ev.il, ic |-> ev.ic]
+           /\ cfg' = [g |-> ev.g, A |-> ev.A, M |-> ev.M, af |-> ev.af, cf |-> ev.cf, eol |-> ev.eol, ib |-> ev.ib, il |-> ev.il, ic |-> ev.ic, cls |-> ev.cls]
            /\ fr' = <<M!Frame(ev.g, ev.A, ev.M, ev.af, ev.cf)>>
-           /\ cur' = 0 /\ ret' = -1 /\ exc' = M!NoExc /\ q' = <<>> /\ done' = -1 /\ steps' = 0
+           /\ cur' = 0 /\ ret' = -1 /\ exc' = M!NoExc /\ q' = <<>> /\ done' = -1 /\ steps' = 0 /\ aux' = [nsid |-> 0, end |-> Len(ev.w), dep |-> 0]
            /\ skip' = ~Supported(ev)
            /\ log' = [log EXCEPT !.cases = @ + 1, !.skipped = @ + (IF Supported(ev) THEN 0 ELSE 1)]
            /\ l' = l + 1
       ELSE IF skip
-      THEN l' = l + 1 /\ UNCHANGED <<w, cfg, fr, cur, ret, exc, q, done, skip, steps, log>>
+      THEN l' = l + 1 /\ UNCHANGED <<w, cfg, fr, cur, ret, exc, q, done, aux, skip, steps, log>>
       ELSE IF q # <<>>
       THEN IF Same(Head(q), ev)
            THEN M!Emit /\ l' = l + 1 /\ UNCHANGED <<w, cfg, skip, steps, log>>
            ELSE IF ev.k = "xc" /\ ev.x = 4
            THEN \* the harness (not PEGTL) cut the run short: its event budget or nesting limit; nothing left to compare
                 /\ log' = [log EXCEPT !.limited = @ + 1] /\ skip' = TRUE /\ l' = l + 1
-                /\ UNCHANGED <<w, cfg, fr, cur, ret, exc, q, done, steps>>
+                /\ UNCHANGED <<w, cfg, fr, cur, ret, exc, q, done, aux, steps>>
            ELSE /\ log' = Drift("event", Head(q)) /\ skip' = TRUE /\ l' = l + 1
-                /\ UNCHANGED <<w, cfg, fr, cur, ret, exc, q, done, steps>>
+                /\ UNCHANGED <<w, cfg, fr, cur, ret, exc, q, done, aux, steps>>
       ELSE IF done = -1
       THEN IF steps > 4000
            THEN /\ log' = Drift("model does not terminate", 0) /\ skip' = TRUE
-                /\ UNCHANGED <<l, w, cfg, fr, cur, ret, exc, q, done, steps>>
+                /\ UNCHANGED <<l, w, cfg, fr, cur, ret, exc, q, done, aux, steps>>
            ELSE M!MStep /\ steps' = steps + 1 /\ UNCHANGED <<l, w, cfg, skip, log>>
       ELSE \* the model's run is over: the next recorded event must be the end of the real run, with the same result
            /\ IF ev.k = "end" /\ ev.v = done /\ ev.o = cur
               THEN log' = [log EXCEPT !.compared = @ + 1]
               ELSE log' = Drift("end", [v |-> done, o |-> cur])
            /\ skip' = TRUE /\ l' = l + 1
-           /\ UNCHANGED <<w, cfg, fr, cur, ret, exc, q, done, steps>>
+           /\ UNCHANGED <<w, cfg, fr, cur, ret, exc, q, done, aux, steps>>
 
 TraceSpec == Init /\ [][Next]_vars
 
